@@ -151,6 +151,7 @@ func checkC09(c *Ctx) {
 	}
 	c.Check(len(fns) >= 5, "R9.0", "reachable-set", "-", fmt.Sprintf("%d HIDI functions reachable from ParseData/readDeviceConfig/LoadHIDIConfig", len(fns)), "reachable set too small: anchors lost")
 	inventoryMayPanic(c, c.P, fns, "R9")
+	c.importRules(noSharedStateRules, []string{"R16.5"}, "R9.10") // loading is a function of the files: no package-level state written at run time
 	ruleDecoderGuard(c, fns)
 	ruleTermination(c, fns)
 	ruleErrorsReturned(c, fns)
@@ -445,10 +446,16 @@ func indexInRange(pf *parserFacts, vw *FnView, x, idx ssa.Value, b *ssa.BasicBlo
 	xt := vw.Term(x)
 	lenKey := (&Term{Op: "len", Args: []*Term{xt}}).String()
 	atoms := vw.GuardsAt(b)
-	lb := boundsFrom(atoms, lenKey, bound{lo: 0, hasLo: true})
-	// regexp submatch results have length 0 or groups+1
+	lb := vw.BoundsAt(b, lenKey, bound{lo: 0, hasLo: true})
+	// regexp submatch results are nil (no match) or have length groups+1
 	if n, ok := submatchLen(pf.p, x); ok {
-		if lb.hasLo && lb.lo >= 1 || lb.excluded[0] {
+		nonNil := false
+		for _, a := range atoms {
+			if op, l, r, ok := normAtom(a); ok && op == "!=" && (l.String() == xt.String() && r.IsNil() || r.String() == xt.String() && l.IsNil()) {
+				nonNil = true
+			}
+		}
+		if lb.hasLo && lb.lo >= 1 || lb.excluded[0] || nonNil {
 			lb.lo, lb.hasLo = int64(n), true
 		}
 	}
@@ -471,6 +478,31 @@ func indexInRange(pf *parserFacts, vw *FnView, x, idx ssa.Value, b *ssa.BasicBlo
 		if op == "<" && l.String() == it.String() && r.String() == lenKey {
 			if nonNegativeIndex(idx) {
 				return true, "range index below len(" + accessName(xt) + ")"
+			}
+		}
+	}
+	// descending search index: starts at len(x)-1, only ever decremented, and is >= 0 here
+	if phi, isPhi := idx.(*ssa.Phi); isPhi {
+		desc := len(phi.Edges) > 0
+		for _, e := range phi.Edges {
+			bo, ok := e.(*ssa.BinOp)
+			if !ok {
+				desc = false
+				break
+			}
+			k, isK := bo.Y.(*ssa.Const)
+			switch {
+			case bo.Op == token.SUB && isK && k.Int64() >= 1 && bo.X == ssa.Value(phi):
+			case bo.Op == token.ADD && isK && k.Int64() <= -1 && bo.X == ssa.Value(phi):
+			case bo.Op == token.SUB && isK && k.Int64() >= 1 && vw.Term(bo.X).String() == lenKey:
+			default:
+				desc = false
+			}
+		}
+		if desc {
+			ib := vw.BoundsAt(b, it.String(), bound{})
+			if ib.hasLo && ib.lo >= 0 {
+				return true, "index starts at len(" + accessName(xt) + ")-1, is only decremented, and is >= 0 under the dominating conditions"
 			}
 		}
 	}
